@@ -218,6 +218,19 @@ def reuse_items():
     return items
 
 
+def reuse_between():
+    """the shared reader is given documents it rejects (a 40-column row, a mangled timecode) between judged reads"""
+    from pycaption import SCCReader
+
+    from mc.checks import c16
+
+    for doc in (c16.REJECTED_DOC, c16.MANGLED_DOC):
+        try:
+            shared.obj(SCCReader).read(doc)
+        except Exception:  # noqa
+            pass
+
+
 def reuse_eval(item):
     v, _s, _t, outcome = evaluate(item)
     return (v or []), outcome
@@ -240,7 +253,7 @@ def shards(tier, seed):
 def run_shard(d):
     acc = Acc()
     if d.get("reuse"):
-        shared.run(acc, reuse_items(), reuse_eval, sample=lambda it: {"reuse_run_step": list(it)})
+        shared.run(acc, reuse_items(), reuse_eval, between=reuse_between, sample=lambda it: {"reuse_run_step": list(it)})
         res = acc.result()
         res["extra"] = {"state_hashes": []}
         return res
@@ -285,7 +298,7 @@ def finish(agg, tier, seed):
 
 def replay(case):
     if case.get("reuse"):
-        return shared.replay(reuse_items(), reuse_eval, case["index"])
+        return shared.replay(reuse_items(), reuse_eval, case["index"], between=reuse_between)
     c = case["case"]
     tw = bool(c[8]) if len(c) > 8 else False
     c = (tuple(c[0]), c[1], c[2], tuple(c[3]), c[4], c[5], c[6], c[7], tw)
